@@ -257,6 +257,18 @@ def case_routes(spec):
         if tuple(t3.pos) != p:
             probs.append("point lookup at the centre of tile %s returned position %s" % (p, tuple(t3.pos)))
         n += 1
+        # lookups of points ON the tile's boundary (a corner, an edge midpoint): the answer is one of the tiles sharing
+        # that corner / edge, i.e. a tile that contains the point
+        rc_ = np.array(rc)
+        k = R.randrange(4)
+        for P in (rc_[k], rt.unit(rc_[k] + rc_[(k + 1) % 4])):
+            lo, la = rt.lonlat(P)
+            t4 = toast.toast_tile_for_point(p[0], float(la), float(lo) % (2 * np.pi), coordsys=cs)
+            c4, _ = rt.tile_corners(tuple(int(v) for v in t4.pos), pl)
+            sd = float(rt.signed_edge_distances(c4, P).min())
+            n += 1
+            if sd < -1e-9:
+                probs.append("point lookup of a %s of tile %s returned %s, which does not contain the point (%.3g rad outside)" % ("corner / edge midpoint", p, tuple(t4.pos), -sd))
         if len(probs) > 12:
             break
     r = dict(counters=dict(route_comparisons=n, routes_cases=1), nontrivial=True)
@@ -300,6 +312,13 @@ def case_live(spec):
         toast.create_single_tile(Pos(*p), coordsys=ocs)
         toast.toast_tile_for_point(p[0], R.uniform(-1.5, 1.5), R.uniform(0, 6.28), coordsys=ocs)
     list(toast.generate_tiles_filtered(D, lambda t: True, bottom_only=True, coordsys=ocs))
+    # ... and the library's own tile filters are asked about the tiles that were handed out (a filter only inspects a tile)
+    from toasty.samplers import _latlon_tile_filter
+
+    for box in ((-0.3, 0.4, -0.2, 0.5), (2.0, 5.5, -1.5, 1.5), (6.0, 6.6, 0.1, 0.2)):
+        flt = _latlon_tile_filter(*box)
+        for x in kept[:: 3]:
+            flt(x[3])
     import itertools
 
     LIM = 2 * len(allp) + 10  # an enumeration that does not end is cut here and shows up as a wrong sequence
